@@ -33,8 +33,8 @@ impl w::RelocateWriter for RecWriter {
     }
 }
 
-type Map = BTreeMap<&'static str, Vec<u8>>;
-type Relocs = BTreeMap<&'static str, Vec<w::Relocation>>;
+pub type Map = BTreeMap<&'static str, Vec<u8>>;
+pub type Relocs = BTreeMap<&'static str, Vec<w::Relocation>>;
 
 fn store(bytes: &mut [u8], at: usize, size: u8, v: u64, big: bool) {
     for i in 0..size as usize {
@@ -55,7 +55,7 @@ fn reloc_value(r: &w::Relocation) -> u64 {
     }
 }
 
-fn apply(map: &Map, relocs: &Relocs, big: bool) -> Map {
+pub fn apply(map: &Map, relocs: &Relocs, big: bool) -> Map {
     let mut out = map.clone();
     for (name, rs) in relocs {
         let bytes = out.get_mut(name).unwrap();
@@ -85,13 +85,16 @@ fn scramble(map: &Map, relocs: &Relocs) -> Map {
 // ---------------------------------------------------------------------------
 
 #[derive(Clone, Debug)]
-pub struct Table<'a>(&'a BTreeMap<usize, u64>);
+pub struct Table<'a>(&'a BTreeMap<usize, u64>, &'a std::cell::RefCell<std::collections::BTreeSet<usize>>);
 
 impl<'a> gimli::read::Relocate<usize> for Table<'a> {
     fn relocate_address(&self, offset: usize, value: u64) -> gimli::Result<u64> {
+        // every field the reader treats as relocatable is noted: the writer must have recorded a relocation there
+        self.1.borrow_mut().insert(offset);
         Ok(self.0.get(&offset).copied().unwrap_or(value))
     }
     fn relocate_offset(&self, offset: usize, value: usize) -> gimli::Result<usize> {
+        self.1.borrow_mut().insert(offset);
         Ok(self.0.get(&offset).map(|v| *v as usize).unwrap_or(value))
     }
 }
@@ -304,6 +307,24 @@ fn tables(relocs: &Relocs) -> BTreeMap<&'static str, BTreeMap<usize, u64>> {
     relocs.iter().map(|(k, rs)| (*k, rs.iter().map(|r| (r.offset, reloc_value(r))).collect())).collect()
 }
 
+/// Write an already built `write::Dwarf` through the relocation-recording writer and apply the recorded relocations
+/// (symbols at SYMBOL_ADDRESSES, sections at 0): what a linker would produce from the relocatable output.
+pub fn write_built_applied(dwarf: &mut w::Dwarf, big: bool) -> Result<Map, w::Error> {
+    let endian = if big { RunTimeEndian::Big } else { RunTimeEndian::Little };
+    let mut map = Map::new();
+    let mut relocs = Relocs::new();
+    let mut sections = w::Sections::new(RecWriter { w: w::EndianVec::new(endian), relocs: Vec::new() });
+    dwarf.write(&mut sections)?;
+    sections
+        .for_each(|id, s| -> Result<(), w::Error> {
+            map.insert(id.name(), s.w.slice().to_vec());
+            relocs.insert(id.name(), s.relocs.clone());
+            Ok(())
+        })
+        .unwrap();
+    Ok(apply(&map, &relocs, big))
+}
+
 // ---------------------------------------------------------------------------
 // units
 // ---------------------------------------------------------------------------
@@ -349,7 +370,15 @@ fn first_diff(a: &[String], b: &[String]) -> String {
 
 fn check_units(ch: &mut Choices, cx: &mut Ctx) -> R {
     cx.label("units");
-    let (m, _expect) = gen_wdwarf(ch, cx);
+    let (mut m, _expect) = gen_wdwarf(ch, cx);
+    // most cases without references into a supplementary file, so that the relocation-set clause below applies
+    if ch.chance(200) {
+        for u in m.units.iter_mut() {
+            for e in u.entries.iter_mut() {
+                e.attrs.retain(|a| !matches!(a.1, wmodel::WVal::DebugInfoRefSup(_) | wmodel::WVal::DebugStrRefSup(_)));
+            }
+        }
+    }
     cx.sample_with(|| format!("{} {} units: {:?}", if m.big { "BE" } else { "LE" }, m.units.len(), m.units.iter().map(|u| (u.version, u.format64, u.address_size, u.entries.len(), u.ranges.len(), u.locs.len())).collect::<Vec<_>>()));
     let direct = write_units(&m, false);
     let recorded = write_units(&m, true);
@@ -398,12 +427,38 @@ fn check_units(ch: &mut Choices, cx: &mut Ctx) -> R {
     let endian = if m.big { RunTimeEndian::Big } else { RunTimeEndian::Little };
     let empty: Vec<u8> = Vec::new();
     let empty_tab: BTreeMap<usize, u64> = BTreeMap::new();
+    let queried: BTreeMap<&'static str, std::cell::RefCell<std::collections::BTreeSet<usize>>> = scrambled.keys().map(|k| (*k, Default::default())).collect();
+    let nowhere: std::cell::RefCell<std::collections::BTreeSet<usize>> = Default::default();
     let plain: gimli::Dwarf<Plain> = gimli::Dwarf::load(|id| -> Result<_, gimli::Error> { Ok(EndianSlice::new(applied.get(id.name()).unwrap_or(&empty), endian)) }).unwrap();
-    let reloc: gimli::Dwarf<Reloc> = gimli::Dwarf::load(|id| -> Result<_, gimli::Error> { Ok(gimli::RelocateReader::new(EndianSlice::new(scrambled.get(id.name()).unwrap_or(&empty), endian), Table(tabs.get(id.name()).unwrap_or(&empty_tab)))) }).unwrap();
+    let reloc: gimli::Dwarf<Reloc> = gimli::Dwarf::load(|id| -> Result<_, gimli::Error> { Ok(gimli::RelocateReader::new(EndianSlice::new(scrambled.get(id.name()).unwrap_or(&empty), endian), Table(tabs.get(id.name()).unwrap_or(&empty_tab), queried.get(id.name()).unwrap_or(&nowhere)))) }).unwrap();
     let a = dump(&reloc);
     let b = dump(&plain);
     if a != b {
         fail!("c18/read/relocating-reader-differs", "{}", first_diff(&a, &b));
+    }
+    // "every address and cross-section offset passes through the relocatable primitives": a field that the reader reads
+    // through them (it is an address or a cross-section offset) must have been written through them, i.e. carry a
+    // recorded relocation. (The converse direction is covered by the scrambled bytes above.)
+    // references into a supplementary object file (DW_FORM_strp_sup, DW_FORM_ref_sup*) are not offsets into any section
+    // of this file: whether they pass through the relocatable primitives is left open, and such cases are not judged
+    let has_sup = m.units.iter().any(|u| u.entries.iter().any(|e| !e.never_added && e.attrs.iter().any(|a| matches!(a.1, wmodel::WVal::DebugInfoRefSup(_) | wmodel::WVal::DebugStrRefSup(_)))));
+    for (name, q) in &queried {
+        if has_sup {
+            break;
+        }
+        cx.label("units: every field read as relocatable carries a recorded relocation");
+        // the pre-v5 list sections are read with address reads throughout (offset pairs, terminators and base-selection
+        // markers cannot be told apart from addresses before they are read): only sections whose fields are typed
+        if !matches!(*name, ".debug_info" | ".debug_line" | ".debug_rnglists" | ".debug_loclists") {
+            continue;
+        }
+        let rec = tabs.get(name);
+        for off in q.borrow().iter() {
+            if !rec.is_some_and(|t| t.contains_key(off)) {
+                cx.say(|| a.join("\n"));
+                fail!("c18/write/relocatable-field-not-recorded", "section {} offset {:#x}: the reader reads this field through the relocatable primitives (an address or a cross-section offset) but the relocation-recording writer recorded no relocation for it; recorded in this section: {:x?}", name, off, rec.map(|t| t.keys().collect::<Vec<_>>()));
+            }
+        }
     }
     ensure!(!b.iter().any(|l| l.contains("error")), "c18/harness/output-unreadable", "{:?}", b.iter().find(|l| l.contains("error")));
     let _ = plain.debug_info.reader().len();
@@ -514,15 +569,16 @@ fn check_frames(ch: &mut Choices, cx: &mut Ctx) -> R {
     let tabs = tables(&relocs);
     let mut a = Vec::new();
     let mut b = Vec::new();
+    let fq: std::cell::RefCell<std::collections::BTreeSet<usize>> = Default::default();
     if eh {
-        let mut s = gimli::EhFrame::from(gimli::RelocateReader::new(EndianSlice::new(&scrambled[name], endian), Table(&tabs[name])));
+        let mut s = gimli::EhFrame::from(gimli::RelocateReader::new(EndianSlice::new(&scrambled[name], endian), Table(&tabs[name], &fq)));
         s.set_address_size(address_size);
         frame_dump(&s, &mut a);
         let mut p = gimli::EhFrame::new(&applied[name], endian);
         p.set_address_size(address_size);
         frame_dump(&p, &mut b);
     } else {
-        let mut s = gimli::DebugFrame::from(gimli::RelocateReader::new(EndianSlice::new(&scrambled[name], endian), Table(&tabs[name])));
+        let mut s = gimli::DebugFrame::from(gimli::RelocateReader::new(EndianSlice::new(&scrambled[name], endian), Table(&tabs[name], &fq)));
         s.set_address_size(address_size);
         frame_dump(&s, &mut a);
         let mut p = gimli::DebugFrame::new(&applied[name], endian);
@@ -537,6 +593,8 @@ fn check_frames(ch: &mut Choices, cx: &mut Ctx) -> R {
         return Ok(());
     }
     ensure!(!b.iter().any(|l| l.contains("error")), "c18/harness/frame-output-unreadable", "{:?}", b.iter().find(|l| l.contains("error")));
+    // (no "read as relocatable => recorded" clause here: the reader takes an FDE's address range through the same
+    // pointer routine as its start address, and a length needs no relocation)
     ensure_eq!(1, 1, "c18/unused");
     Ok(())
 }
